@@ -150,6 +150,35 @@ Apparently(c) ==
   IN Result(NoPos, tot, <<>>, -1, ~IsYawOnly(P), IF trig THEN "apparently-facing-parent-orientation" ELSE "none",
             IF trig THEN QMulN(P, tot) ELSE NoQ)         \* as implemented: the yaw is not corrected for the parent
 
+\* ------------------------------------------------------------------ facing F / facing O under a given or inherited parent
+\* "facing <vector field>: sets yaw, pitch and roll so that the orientation in GLOBAL coordinates is equal
+\*  to the orientation provided by the field at the object's position" -- whatever the parent
+\* orientation is and wherever it comes from; the local angles are those of  parent^-1 * F[position].
+\* The parent is given explicitly (`with parentOrientation`) or inherited:
+\*   ahead    `ahead of OP by D`      parent = OP's orientation,  position = OP + P * (0, D + length/2, 0)
+\*   offsetby `offset by V`           parent = ego's orientation, position = ego + P * V
+\*   in       `in R`   (R = one lattice point with an orientation field)  parent = R's orientation there
+\*   on       `on R`   the BASE (bottom centre) of the object at the point, lifted by contactTolerance/2
+\*                     along the parent's up axis: position = point + P * (0, 0, height/2 + ct/2)
+\* The field of a case is piecewise constant: orientation fa where x > 1/8, fb where x < 1/8 (a seam
+\* no quarter-lattice point, rotated by a denominator 1, 5 or 13, can lie on).
+FPParent(c) == Rot(c.par)
+FPPlace(c) ==
+  CASE c.pm \in {"with", "in"} -> [p |-> c.base, ps |-> 4]
+    [] c.pm = "ahead" -> Place(c.base, FPParent(c), <<0, c.D + c.ndim[2] \div 2, 0>>)
+    [] c.pm = "offsetby" -> Place(c.base, FPParent(c), c.V)
+    [] c.pm = "on" -> Place(c.base, FPParent(c), <<0, 0, c.ndim[3] \div 2 + c.ct \div 2>>)
+FieldAt(c, pos) == IF 8 * pos.p[1] > pos.ps THEN Rot(c.fa) ELSE Rot(c.fb)
+FPTarget(c) == IF c.fk = "field" THEN FieldAt(c, FPPlace(c)) ELSE Rot(c.fa)
+FacingUnderParent(c) == Plain(FPPlace(c), FPTarget(c))
+FPLemma(c, e) ==
+  LET P == FPParent(c) T == FPTarget(c) L == QLocalFor(P, T) IN
+  /\ 8 * e.p[1] # e.ps                             \* the position is not on the seam of the field
+  /\ IsQRot(L) /\ QEq(QMul(P, L), T)               \* the local angles parent^-1 * F compose back to F
+  \* the swapped product F * parent^-1 gives the conjugate, which is F only if the two commute
+  /\ (QEq(QMul(P, QMul(T, QInv(P))), T) <=> QEq(QMul(P, T), QMul(T, P)))
+FPNonCommuting(c) == ~QEq(QMul(FPParent(c), FPTarget(c)), QMul(FPTarget(c), FPParent(c)))
+
 \* ------------------------------------------------------------------ (front | back | ...) of Object
 SideSigns(sub) ==
   CASE sub = "front" -> <<0, 1, 0>> [] sub = "back" -> <<0, -1, 0>> [] sub = "left" -> <<-1, 0, 0>>
@@ -218,6 +247,7 @@ Expected(c) ==
     [] c.kind = "relhead" -> RelHeading(c)
     [] c.kind = "apphead" -> AppHeading(c)
     [] c.kind = "ori" -> OriAlg(c)
+    [] c.kind = "facep" -> FacingUnderParent(c)
 
 \* ------------------------------------------------------------------ machine: one state per case
 Init == pc = "chunk" /\ chunk \in 1..NChunks /\ i = 0 /\ exp = <<>>
@@ -246,8 +276,9 @@ ConstructLemmas == IsCase =>
           C.nxy > 0 /\ C.nxy * C.nxy = (C.pos[1] - C.from[1]) * (C.pos[1] - C.from[1]) + (C.pos[2] - C.from[2]) * (C.pos[2] - C.from[2]))
    /\ (C.kind = "side" => SideLemma(C, exp))
    /\ (C.kind = "ori" => OriLemma(C))
+   /\ (C.kind = "facep" => FPLemma(C, exp))
    /\ (C.kind \in {"angle", "altitude", "apphead"} => ScalarLemma(C))
 \* the deviation differs from the ideal only where it is triggered, and then really differs
 DeviationScoped == IsCase => (exp.dev # "none" => ~QEq([m |-> exp.r, d |-> exp.rd], [m |-> exp.ir, d |-> exp.ird]))
-Emit == IsCase => PrintT(ToJson([id |-> C.id, e |-> exp]))
+Emit == IsCase => PrintT(ToJson([id |-> C.id, e |-> exp, nc |-> IF C.kind = "facep" THEN FPNonCommuting(C) ELSE FALSE]))
 =============================================================================
